@@ -14,20 +14,28 @@ use std::collections::BTreeSet;
 pub trait IntInner: Inputs + Copy + Ord {
     const MINV: Self;
     const MAXV: Self;
+    const BYTES: usize;
     fn succ(self) -> Option<Self>;
     fn pred(self) -> Option<Self>;
+    /// `self - lo` in the unsigned type of the same width (wrapping), widened
+    fn offset_from(self, lo: Self) -> u128;
+    /// `lo + off` (wrapping in the type's width)
+    fn add_offset(lo: Self, off: u128) -> Self;
 }
 macro_rules! int_inner {
-    ($($t:ty),*) => {$(
+    ($(($t:ty, $u:ty)),*) => {$(
         impl IntInner for $t {
             const MINV: Self = <$t>::MIN;
             const MAXV: Self = <$t>::MAX;
+            const BYTES: usize = std::mem::size_of::<$t>();
             fn succ(self) -> Option<Self> { self.checked_add(1) }
             fn pred(self) -> Option<Self> { self.checked_sub(1) }
+            fn offset_from(self, lo: Self) -> u128 { (self as $u).wrapping_sub(lo as $u) as u128 }
+            fn add_offset(lo: Self, off: u128) -> Self { (lo as $u).wrapping_add(off as $u) as $t }
         }
     )*};
 }
-int_inner!(u8, u16, u32, u64, u128, usize, i8, i16, i32, i64, i128, isize);
+int_inner!((u8, u8), (u16, u16), (u32, u32), (u64, u64), (u128, u128), (usize, usize), (i8, u8), (i16, u16), (i32, u32), (i64, u64), (i128, u128), (isize, usize));
 
 /// inclusive valid range of an integer model without predicates (None = empty)
 pub fn int_range<I: IntInner>(m: &Model<I>) -> Option<(I, I)> {
@@ -84,6 +92,26 @@ pub fn byte_inputs(tier: Tier) -> Vec<Bytes> {
                 b[i] = 0x00;
                 v.push(Bytes(b));
             }
+        }
+    }
+    // special floating-point words (arbitrary reads f32/f64 as little-endian bit patterns): infinities, NaNs,
+    // extremes, subnormals, zeros - alone, doubled, and followed by a plain word
+    {
+        let f32s = [f32::INFINITY, f32::NEG_INFINITY, f32::NAN, -f32::NAN, f32::MAX, f32::MIN, f32::MIN_POSITIVE, f32::from_bits(1), -0.0, 1.0, -1.0, f32::from_bits(0x7f80_0001), f32::from_bits(0x7f7f_fffe)];
+        let f64s = [f64::INFINITY, f64::NEG_INFINITY, f64::NAN, -f64::NAN, f64::MAX, f64::MIN, f64::MIN_POSITIVE, f64::from_bits(1), -0.0, 1.0, -1.0, f64::from_bits(0x7ff0_0000_0000_0001), f64::from_bits(0x7fef_ffff_ffff_fffe)];
+        let mut words: Vec<Vec<u8>> = vec![];
+        for x in f32s {
+            words.push(x.to_bits().to_le_bytes().to_vec());
+            words.push(x.to_bits().to_be_bytes().to_vec());
+        }
+        for x in f64s {
+            words.push(x.to_bits().to_le_bytes().to_vec());
+            words.push(x.to_bits().to_be_bytes().to_vec());
+        }
+        for w in &words {
+            v.push(Bytes(w.clone()));
+            v.push(Bytes([w.clone(), w.clone()].concat()));
+            v.push(Bytes([w.clone(), vec![0x3f, 0x80, 0, 0, 0, 0, 0x80, 0x3f]].concat()));
         }
     }
     // little-endian u32 encodings of hostile code points in every char slot (arbitrary reads chars as u32)
@@ -156,7 +184,16 @@ pub fn mechanism_facts<I: Inputs>(m: &Model<I>) -> String {
                 }
                 _ => false,
             } as u8;
-            format!("lower={lower}|upper={upper}|finite={finite}|span_overflow={span_overflow}")
+            // with one bound the generator adds |basic| to a lower bound (subtracts it from an upper one): can that
+            // sum leave the finite range at all? Only for a positive lower / negative upper bound of at least
+            // half an ulp of MAX; for any other declaration a non-finite result has another cause.
+            let half_ulp_max = if I::NAME == "f32" { (f32::MAX as f64) * 2f64.powi(-25) } else { f64::MAX * 2f64.powi(-54) };
+            let one_sided_overflow_possible = match (lo, hi) {
+                (Some(l), None) => l >= half_ulp_max,
+                (None, Some(h)) => h <= -half_ulp_max,
+                _ => false,
+            } as u8;
+            format!("lower={lower}|upper={upper}|finite={finite}|span_overflow={span_overflow}|one_sided_overflow_possible={one_sided_overflow_possible}")
         }
         Kind::Str => {
             let case = m.sans.iter().any(|s| matches!(s, San::Lower | San::Upper)) as u8;
@@ -227,6 +264,82 @@ pub fn check<I: Inputs>(vt: &'static Vt<I>, ctx: &Ctx) -> DeclReport {
     rep
 }
 
+/// Valid ranges too wide to enumerate: a spread of valid values (both ends, the middle, every byte-width
+/// threshold of the offset) must each be produced by some input. The inputs tried for a value are the
+/// encodings of its offset from the lower end that a range generator over `lo..=hi` can consume (big- and
+/// little-endian, minimal and full width) - what `arbitrary::Unstructured::int_in_range` inverts to - and
+/// the value's own bytes.
+fn wide_range_probe<I: IntInner>(vt: &'static Vt<I>, arb: fn(&[u8]) -> Result<I, String>, lo: I, hi: I) -> DeclReport {
+    let m = vt.model;
+    let mut rep = DeclReport::new(vt.id);
+    let delta = hi.offset_from(lo);
+    // bytes a range generator consumes for this span
+    let n = (((128 - delta.leading_zeros()) as usize + 7) / 8).clamp(1, I::BYTES);
+    let mut offs: Vec<u128> = vec![0, 1, 2, 255, 256, 257, 65535, 65536, 65537, delta / 2, delta / 2 + 1, delta / 3, delta.saturating_sub(2), delta.saturating_sub(1), delta];
+    for k in 1..I::BYTES {
+        let t = 1u128 << (8 * k as u32);
+        offs.extend([t - 1, t, t + 1]);
+        // around the sign boundary of the same-width signed type
+        offs.extend([(t << 7 >> 8).wrapping_sub(1), t << 7 >> 8]);
+    }
+    if I::BYTES < 16 {
+        let half = 1u128 << (8 * I::BYTES as u32 - 1);
+        offs.extend([half - 1, half, half + 1]);
+    } else {
+        offs.extend([(1u128 << 127) - 1, 1u128 << 127, (1u128 << 127) + 1]);
+    }
+    offs.retain(|o| *o <= delta);
+    offs.sort();
+    offs.dedup();
+    let mut missing: Vec<I> = vec![];
+    let mut panics = 0u64;
+    for o in &offs {
+        let target = I::add_offset(lo, *o);
+        let be = o.to_be_bytes();
+        let le = o.to_le_bytes();
+        let tb = target.key();
+        let candidates: Vec<Vec<u8>> = vec![be[16 - n..].to_vec(), be[16 - I::BYTES..].to_vec(), le[..n].to_vec(), le[..I::BYTES].to_vec(), tb.clone(), tb.iter().rev().copied().collect()];
+        let mut hit = false;
+        for c in &candidates {
+            rep.evaluations += 1;
+            match no_panic(|| arb(c)) {
+                Ok(Ok(v)) if v == target => {
+                    hit = true;
+                    break;
+                }
+                Err(_) => panics += 1,
+                _ => {}
+            }
+        }
+        if !hit {
+            missing.push(target);
+        }
+    }
+    rep.nontrivial = rep.evaluations;
+    rep.class("decl-wide-range-probe");
+    rep.class_n("wide-range-probe-targets", offs.len() as u64);
+    rep.sample("decl-wide-range-probe", json!({"case": {"valid_range": [lo.to_json(), hi.to_json()], "probed_values": offs.len(), "inputs": "encodings of the offset from the lower end (BE/LE, minimal/full width) and of the value"}}));
+    if !missing.is_empty() {
+        let mut w = Default::default();
+        rep.viol(
+            Viol {
+                prop: "C14".into(),
+                decl_id: vt.id.into(),
+                type_name: vt.type_name.into(),
+                decl: vt.decl.into(),
+                signature: format!("C14|{}|valid-values-never-produced|vals={}|wide-range-probe|panics={}", I::NAME, val_names(m), if panics > 0 { "some" } else { "none" }),
+                case: json!({"missing_count": missing.len(), "probed": offs.len(), "first_missing": missing[0].to_json(), "last_missing": missing[missing.len() - 1].to_json(), "valid_range": [lo.to_json(), hi.to_json()]}),
+                expected: format!("each probed value of {}..={} produced by the input that encodes its offset from the lower end", lo.to_json(), hi.to_json()),
+                actual: format!("{} of {} probed valid values not produced (e.g. {})", missing.len(), offs.len(), missing[0].to_json()),
+                shrunk: "none".into(),
+            },
+            0,
+            &mut w,
+        );
+    }
+    rep
+}
+
 pub fn check_c14<I: IntInner>(vt: &'static Vt<I>, ctx: &Ctx) -> DeclReport {
     let Some(arb) = vt.arbitrary else { return DeclReport::irrelevant(vt.id) };
     let m = vt.model;
@@ -235,13 +348,13 @@ pub fn check_c14<I: IntInner>(vt: &'static Vt<I>, ctx: &Ctx) -> DeclReport {
         return DeclReport::irrelevant(vt.id);
     }
     let Some((lo, hi)) = int_range(m) else { return DeclReport::irrelevant(vt.id) };
-    // enumerate the valid set, giving up beyond 2^16 elements
+    // enumerate the valid set; beyond 2^16 elements probe a spread of values instead
     let mut valid: BTreeSet<I> = BTreeSet::new();
     let mut x = lo;
     loop {
         valid.insert(x);
         if valid.len() > 65536 {
-            return DeclReport::irrelevant(vt.id);
+            return wide_range_probe(vt, arb, lo, hi);
         }
         if x == hi {
             break;
